@@ -378,6 +378,10 @@ func DecodeBoxLazyMdat(startPos uint64, r io.ReadSeeker) (Box, error) {
 	} else {
 		switch h.Name {
 		case "mdat":
+			if remainingLength < 0 {
+				err = fmt.Errorf("mdat size %d not supported", h.Size)
+				break
+			}
 			b, err = DecodeMdatLazily(h, startPos)
 			if err == nil {
 				_, err = r.Seek(remainingLength, io.SeekCurrent)
